@@ -138,7 +138,7 @@ theorem C11_udp_spoof (lower : Bytes → Bytes) (v6 : Bool) (f : AnnFields) (hf 
     (params : List (Bytes × Bytes)) (hp : handleOptionalParameters lower optBytes = .ok params) (hsrc : src ≠ []) :
     parseAnnounce lower (buildAnnounce (if v6 then 4 else 1) f ++ optBytes) src v6 opts =
       Sanitize.announce
-        { event := ev, eventProvided := true, infoHash := f.ih, compact := false, numWantProvided := true,
+        { event := ev, eventProvided := true, infoHash := f.ih, compact := false, numWantProvided := f.nw != 4294967295,
           ipProvided := !allZero f.ipField, numWant := f.nw, left := f.left, downloaded := f.dl, uploaded := f.ul,
           peer := { id := f.pid, port := f.port, ip := if allZero f.ipField then src else f.ipField, fam := .v4 }, params := params }
         opts.maxNumWant opts.defaultNumWant := by
